@@ -60,12 +60,25 @@ def make_sequential(ctx, npairs, nint=3):
         cfgs, hs = two_histories(rng, rng.randint(15, 50))
         glob = G.rand_global(rng, icon_size=rng.choice([0, 700, 3000]))
 
+        # one interface's link goes down for a stretch of *its own* history (every transmit on it is refused) and comes back;
+        # the other interface must not notice, and each one's trace is still the trace its history (with its own outage)
+        # produces alone
+        outage = {}
+        if i % 8 == 7:
+            for t in rng.sample([0, 1], rng.choice([1, 1, 2])):
+                k0 = rng.randrange(len(hs[t]))
+                outage[t] = (k0, k0 + rng.choice([1, 3, 8, 1000]))
+
         def mk(sid, order, kind):
-            s = H.Scenario(sid, meta=dict(pair=i, kind=kind, order=order, same_mac=cfgs[0]["mac"] == cfgs[1]["mac"]))
+            s = H.Scenario(sid, meta=dict(pair=i, kind=kind, order=order, same_mac=cfgs[0]["mac"] == cfgs[1]["mac"], outage=bool(outage)))
             s.iface(0, **H.iface_kw(cfgs[0])).iface(1, **H.iface_kw(cfgs[1])).glob(**G.global_kw(glob))
             s.add("OPT sleep=1")
             pos = [0, 0]
             for t in order:
+                if t in outage and pos[t] == outage[t][0]:
+                    s.add("SET %d txdown=1" % t)
+                if t in outage and pos[t] == outage[t][1]:
+                    s.add("SET %d txdown=0" % t)
                 s.frame(t, hs[t][pos[t]])
                 pos[t] += 1
             return s
@@ -113,6 +126,8 @@ def seq_monitor(scn, sobj, rep, sf, ck):
         ent["inter"].append((scn.sid, tr, sobj))
         if meta.get("same_mac"):
             rep.count("interleavings_of_two_interfaces_with_one_address")
+        if meta.get("outage"):
+            rep.count("interleavings_with_one_interface_link_down_for_a_while")
     else:
         t = 0 if meta["kind"] == "solo0" else 1
         ent["solo"][t] = tr[t]
@@ -265,4 +280,5 @@ def run(ctx):
     run_monitored(ctx, plain, scns, seq_monitor, tag="seq-plain", nshards=16, env_extra={"VH_FILL": "-1", "VH_FAR_CTX": "1"})
     rep.need("interleavings_checked", rep.counters.get("interleavings_checked", 0), ctx.n(3400, 116000))
     rep.need("interleavings_of_two_interfaces_with_one_address", rep.counters.get("interleavings_of_two_interfaces_with_one_address", 0), 100)
+    rep.need("interleavings_with_one_interface_link_down_for_a_while", rep.counters.get("interleavings_with_one_interface_link_down_for_a_while", 0), 100)
     run_threads(ctx, ctx.n(8, 64), ctx.n(300, 5000))
